@@ -327,3 +327,23 @@ Proof.
   exists W_tx_volumes_collapse, 1%N. destruct (run W_tx_volumes_collapse) as [d|] eqn:E; [|vm_compute in E; discriminate].
   exists d. split; [reflexivity|]. vm_compute in E. inversion E; subst d. split; reflexivity.
 Qed.
+
+(* ---- F-C04j: the accounts listing as of a date returns one row per metadata revision dated before it --------------------------- *)
+(* the class: some account visible at pit has two or more revisions dated before pit (revisions as the schema writes them: the
+   per-ledger accounts machine B is a function of the ledger's log) *)
+Definition several_revisions_before (Ls : list log) (pit : Z) : bool :=
+  existsb (fun r => Z.leb (ba_ins r) pit &&
+                    Nat.leb 2 (length (filter (fun h => Z.ltb (snd (fst h)) pit) (ba_hist r)))) (B_run Ls).
+
+Definition W_accounts_listing : list log :=
+  [ {| l_ledger := 1; l_id := 0; l_date := 100; l_data := PSet (TAccount 1) [(3, 4)]%N |};
+    {| l_ledger := 1; l_id := 1; l_date := 101; l_data := PSet (TAccount 1) [(3, 5)]%N |} ].
+
+Lemma c04_accounts_listing_pit_refuted : exists L l d pit,
+  run L = Some d /\ several_revisions_before (ledger_logs l L) pit = true /\
+  list_accounts_pit d l pit = [(1, Some [(3, 5)]); (1, Some [(3, 4)])]%N /\
+  replay_account_meta (ledger_logs l L) 1 (Some pit) = Some [(3, 5)]%N.
+Proof.
+  exists W_accounts_listing, 1%N. destruct (run W_accounts_listing) as [d|] eqn:E; [|vm_compute in E; discriminate].
+  exists d, 200. split; [reflexivity|]. vm_compute in E. inversion E; subst d. repeat split.
+Qed.
